@@ -46,6 +46,11 @@ def build_ws(vw, n):
     open(os.path.join(d, "mix.go"), "w").write("package mix\n\n" + body % "F")
     open(os.path.join(d, "mix_test.go"), "w").write("package mix\n\nimport \"testing\"\n\nfunc TestF(t *testing.T) { _ = F(nil, \"\") }\n\n" + body % "helperIn")
     open(os.path.join(d, "ext_test.go"), "w").write("package mix_test\n\nimport \"testing\"\n\nfunc TestG(t *testing.T) {}\n\n" + body % "helperExt")
+    # the same problem at several places of one construct: checkers that attach all their warnings to one node
+    # would print byte-identical lines (the analysis driver de-duplicates, the check command does not)
+    open(os.path.join(d, "dups.go"), "w").write("package mix\n\nimport \"regexp\"\n\nvar (\n\t_ = regexp.MustCompile(`[aa]x[aa]`)\n\t_ = regexp.MustCompile(`(?i)x(?i)y(?i)`)\n"
+                                                "\t_ = regexp.MustCompile(`a^b|c^d`)\n\t_ = regexp.MustCompile(`[a-z0-9a-z]+[a-z0-9a-z]`)\n\t_ = regexp.MustCompile(`[0-90-9][0-90-9]`)\n)\n\n"
+                                                "func dupArgs(a, b []int) {\n\tcopy(a, a); copy(a, a)\n\t_ = a[:][:]\n}\n")
     open(os.path.join(d, "cmdmain", "main.go"), "w").write("package main\n\nfunc main() {}\n\n" + body % "g")
     return ws, pats + ["./mix", "./mix/cmdmain"]
 
@@ -119,6 +124,11 @@ func pkgDependent(m dsl.Matcher) {
     confs.append({"all": True, "enable": None, "disable": "#performance", "params": {"ruleguard.rules": rules}, "go": "1.18"})
     # a checker enabled by name while one of its tags is disabled (precedence must agree everywhere)
     confs.append({"all": False, "enable": "hugeParam,dupSubExpr,rangeValCopy,unslice,assignOp", "disable": "#performance", "params": {}, "go": None})
+    # another target platform in the environment: all front-ends load the packages for it and must agree
+    # (sizes compared with thresholds and quoted in messages are the target's)
+    confs.append({"all": True, "enable": None, "disable": None, "params": {}, "go": None, "env": {"GOARCH": "386"}})
+    confs.append({"all": False, "enable": "#performance,#diagnostic", "disable": "", "params": {"hugeParam.sizeThreshold": 20, "rangeValCopy.sizeThreshold": 20, "rangeExprCopy.sizeThreshold": 20}, "go": None, "env": {"GOARCH": "386"}})
+    confs.append({"all": True, "enable": None, "disable": "#opinionated", "params": {}, "go": None, "env": {"GOOS": "windows", "GOARCH": "arm64"}})
     byname = {i["name"]: i for i in infos}
     pick = r.sample([n for n in names if byname[n]["tags"]], 6)
     confs.append({"all": False, "enable": ",".join(pick + ["unslice", "assignOp"]), "disable": ",".join("#" + byname[n]["tags"][-1] for n in pick[:3]), "params": {}, "go": None})
@@ -157,17 +167,18 @@ func pkgDependent(m dsl.Matcher) {
             a.append("-go=" + c["go"])
         return a
 
-    jobs = [(ci, c, gi, g) for ci, c in enumerate(confs) for gi, g in enumerate(groups) if tier == "thorough" or (ci + gi) % 2 == 0 or ci < 2]
+    jobs = [(ci, c, gi, g) for ci, c in enumerate(confs) for gi, g in enumerate(groups) if tier == "thorough" or (ci + gi) % 2 == 0 or ci < 2 or c.get("env")]
 
     def one(job):
         ci, c, gi, g = job
         o = {}
+        env = dict(vlib.goenv(), **c.get("env", {}))
         for bname in ("go-critic", "gocritic"):
-            rc, so, se = vlib.sh([os.path.join(bins, bname)] + cli_args(c) + g, cwd=ws, timeout=900)
+            rc, so, se = vlib.sh([os.path.join(bins, bname)] + cli_args(c) + g, cwd=ws, env=env, timeout=900)
             o[bname] = (rc, se)
-        rc, so, se = vlib.sh([os.path.join(bins, "go-critic-analysis")] + an_args(c) + g, cwd=ws, timeout=900)
+        rc, so, se = vlib.sh([os.path.join(bins, "go-critic-analysis")] + an_args(c) + g, cwd=ws, env=env, timeout=900)
         o["go-critic-analysis"] = (rc, se)
-        rc, so, se = vlib.sh([os.path.join(bins, "gocritic-analysis"), "-json"] + an_args(c) + g, cwd=ws, timeout=900)
+        rc, so, se = vlib.sh([os.path.join(bins, "gocritic-analysis"), "-json"] + an_args(c) + g, cwd=ws, env=env, timeout=900)
         o["json"] = (rc, so)
         return job, o
 
@@ -221,8 +232,8 @@ func pkgDependent(m dsl.Matcher) {
                             msg = it["message"]
                             ck, _, txt = msg.partition(": ")
                             an_edits[(os.path.realpath(e["filename"]), ck, txt, e["start"], e["end"])] = e["new"]
-        if c["params"] or c["go"]:
-            continue   # the API reference below runs with default parameters
+        if c["params"] or c["go"] or c.get("env"):
+            continue   # the API reference below runs with default parameters on the host platform
         for p in g:
             if p not in api_cache:
                 work = vlib.mktmp("c08w-")
